@@ -17,6 +17,7 @@ TRANSFORMS = [
     "X5 derive lists of extracted structs/enums are reduced to the traits Verus understands (PartialEq, Eq, Clone, Copy); default type parameters (`= f64`) are dropped",
     "X6 ghost text from the unit template is spliced in: named return, requires/ensures/decreases, loop invariants, ghost iterator names, proof blocks",
     "X7 `impl Trait` in argument position is kept; visibility qualifiers pub(crate)/pub(super) are rewritten to pub",
+    "X8 where Verus forbids `requires` on an impl of a std trait (Iterator::next), the extracted method body is checked as an impl of a local trait of the same shape declared in the unit (c10_earcut_glue: IteratorWithInvariant)",
 ]
 
 
